@@ -35,6 +35,30 @@ def _subject_is(fa, e, param):
         return False
 
 
+def _type_names(fa, t):
+    """the type names an isinstance() classinfo stands for: a type, a tuple of types (nested tuples flattened),
+    or the name of a local / module-level constant bound to such a tuple"""
+    if isinstance(t, ast.Tuple):
+        out = set()
+        for e in t.elts:
+            out |= _type_names(fa, e)
+        return out
+    if isinstance(t, ast.Name):
+        v = None
+        ids = fa.nodes(t)
+        if ids:
+            ds = fa.df.reaching(ids[0], t.id)
+            if len(ds) == 1 and ds[0].kind == "assign" and isinstance(ds[0].value, ast.Tuple):
+                v = ds[0].value
+            elif not ds:
+                mv = getattr(fa.fi.module, "assigns", {}).get(t.id)
+                if isinstance(mv, ast.Tuple):
+                    v = mv
+        if v is not None:
+            return _type_names(fa, v)
+    return {A.norm(t)}
+
+
 def _value_types(fa, param):
     """Every type the function tests its value parameter against, wherever the test is written (an `or`
     chain, a tuple, an if / elif ladder, guard clauses, a returned boolean expression): set of type names,
@@ -42,12 +66,39 @@ def _value_types(fa, param):
     out = set()
     for n in A.walk_body(fa.node):
         if isinstance(n, ast.Call) and isinstance(n.func, ast.Name) and n.func.id == "isinstance" and len(n.args) == 2 and _subject_is(fa, n.args[0], param):
-            t = n.args[1]
-            out |= {A.norm(e) for e in t.elts} if isinstance(t, ast.Tuple) else {A.norm(t)}
+            out |= _type_names(fa, n.args[1])
         elif isinstance(n, ast.Compare) and len(n.ops) == 1 and isinstance(n.ops[0], (ast.Is, ast.IsNot, ast.Eq, ast.NotEq)) \
                 and A.is_none(n.comparators[0]) and _subject_is(fa, n.left, param):
             out.add("None")
     return out
+
+
+def _validator_predicate(ck):
+    """The predicate validate_args applies to every value, found by what it does: the function (nested in
+    validate_args or at module level beside it) whose negative answer on a value is what the AssertionError
+    paths of validate_args are conditioned on."""
+    host = ck.repo.func("reference.validate_args")
+    fa = FA(ck, host)
+    seen = {}
+    for r in fa.stmts(ast.Raise):
+        if not fa.nodes(r):
+            continue
+        for conj in conds(fa, r):
+            for (t, p) in conj:
+                e, pol = lit_expr(t, p)
+                if isinstance(e, ast.Call) and isinstance(e.func, ast.Name) and not pol and len(e.args) == 1 and not e.keywords:
+                    seen.setdefault(e.func.id, set()).add(id(r))
+    cands = []
+    for name in seen:
+        fi = host.nested.get(name) or host.module.functions.get(name)
+        if fi is not None and len(fi.params) == 1:
+            cands.append(fi)
+    if len(cands) != 1:
+        # not conditioned on a call (the predicate was written out in place): the nested function, if there is one
+        vas = host.nested
+        cands = [vas["validate_arg"]] if "validate_arg" in vas else (list(vas.values()) if len(vas) == 1 else [])
+    ck.need(len(cands) == 1, "validate_args: the predicate that decides which values are admitted was not found")
+    return cands[0]
 
 
 def result_cases(fa):
@@ -211,9 +262,7 @@ def check(ck):
             lib_writer = lib_writer and okl
             n_canon += 1
     lib_writer = lib_writer and n_canon >= 1
-    vas = ck.repo.func("reference.validate_args").nested
-    va = vas.get("validate_arg") or (list(vas.values())[0] if len(vas) == 1 else None)
-    ck.need(va is not None, "validate_args.validate_arg not found")
+    va = _validator_predicate(ck)
     vfa = FA(ck, va)
     ck.need(bool(vfa.fi.params), "validate_args.validate_arg takes no value")
     val_types = _value_types(vfa, vfa.fi.params[0])
